@@ -518,3 +518,14 @@ Proof.
   - rewrite <- rule_accepted_iff_all_placements_allowed. intros [t E]. congruence.
   - rewrite <- rule_accepted_iff_all_placements_allowed in Hr. destruct (transform_rule A r) as [t|]; [|reflexivity]. exfalso. apply Hr. now exists t.
 Qed.
+(* the positive side (C11): a program is translated exactly if every atom of every rule stands at an allowed placement *)
+Theorem transform_program_accepts_iff (A : Type) (leA : A -> A -> bool) (P : list (frule A)) :
+  (exists o, transform_program A leA P = Some o) <->
+  forall r, In r P -> head_allowed A (fh A r) = true /\ forallb (lit_allowed A (shape_of A (fh A r))) (fb A r) = true.
+Proof.
+  split.
+  - intros [o E] r Hin. rewrite <- rule_accepted_iff_all_placements_allowed. destruct (transform_rule A r) as [t|] eqn:Er; [now exists t|].
+    assert (transform_program A leA P = None) as N by (apply transform_program_total; exists r; split; assumption). congruence.
+  - intros H. destruct (transform_program A leA P) as [o|] eqn:E; [now exists o|]. apply transform_program_total in E. destruct E as (r & Hin & Er).
+    apply H in Hin. rewrite <- rule_accepted_iff_all_placements_allowed in Hin. destruct Hin as [t Et]. congruence.
+Qed.
